@@ -142,7 +142,7 @@ m = {
         "guard": "fir_verif",
         "enable": "RUSTFLAGS='--cfg fir_verif' (rustc cfg; the harness crate /verif/kh depends on /repo by path and is built by cargo kani with that flag)",
         "baseline_off_cmd": "cd /repo && cargo nextest run --workspace --no-fail-fast --tool-config-file pb:/w/lib/nextest.toml --profile pb --test-threads 8 --offline || cargo test --workspace --no-fail-fast --offline",
-        "source_commits": ["6b2ee8d2d6bd47549390591e894ff650100d69f4", "d7fa18a012782b0f36ec28b19f8071f84f81d5c4", "2c6a3031f909b7fd8bfd9941b7f0a6d3e0280f57"],
+        "source_commits": ["6b2ee8d2d6bd47549390591e894ff650100d69f4", "d7fa18a012782b0f36ec28b19f8071f84f81d5c4", "60336abfee3570de5f784271f4d5ffa461f463be"],
         "add_only": True,
     },
     "engines": [
